@@ -119,6 +119,9 @@ class TimerMonitor(netsim.Monitor):
         self.seen_dgrams = {"c": set(), "s": set()}
         self.sent_since_rx = {}
         self.rx_time = {"c": {}, "s": {}}     # (packet type, pn) -> first delivery time
+        self.rx_last_unacked = {"c": {}, "s": {}}   # (packet type, pn) -> latest delivery before the endpoint acked it
+        self.acked_first = {"c": {}, "s": {}}       # (packet type, pn) -> when the endpoint first acknowledged it
+        self.processed_late = {"c": None, "s": None}
         self.processed = {"c": None, "s": None}  # delivery time of the latest packet the endpoint ACKNOWLEDGED
 
     def before_api(self, w, ep, name):
@@ -131,7 +134,12 @@ class TimerMonitor(netsim.Monitor):
         # a duplicate of a datagram already delivered is not activity
         for r in d.recs or ():
             if r.opened and r.pn is not None:
-                self.rx_time[ep.name].setdefault((r.type if r.type != "0rtt" else "1rtt", r.pn), w.now)
+                key = (r.type if r.type != "0rtt" else "1rtt", r.pn)
+                self.rx_time[ep.name].setdefault(key, w.now)
+                if key not in self.acked_first[ep.name]:
+                    # not acknowledged so far: if the endpoint acknowledges it later, THIS delivery may be the one
+                    # it processed (an earlier copy can have been dropped for want of keys)
+                    self.rx_last_unacked[ep.name][key] = w.now
         fp = hash(d.data)
         if d.kind in ("genuine", "dup") and fp not in self.seen_dgrams[ep.name]:
             self.seen_dgrams[ep.name].add(fp)
@@ -168,6 +176,11 @@ class TimerMonitor(netsim.Monitor):
                                 t = rt.get((r.type, pn))
                                 if t is not None and (self.processed[name] is None or t > self.processed[name]):
                                     self.processed[name] = t
+                                if t is not None and (r.type, pn) not in self.acked_first[name]:
+                                    self.acked_first[name][(r.type, pn)] = w.now
+                                    tl = self.rx_last_unacked[name].get((r.type, pn), t)
+                                    if self.processed_late[name] is None or tl > self.processed_late[name]:
+                                        self.processed_late[name] = tl
         if n_term and name not in self.closing and self.processed[name] is not None:
             ev = [e for e in new_events if type(e).__name__ == "ConnectionTerminated"][0]
             if ev.reason_phrase == "Idle timeout" and w.now < self.processed[name] + w.cfg["idle"] - 1e-6:
@@ -180,6 +193,10 @@ class TimerMonitor(netsim.Monitor):
         if n_term and name in self.activity and name not in self.closing:
             ev = [e for e in new_events if type(e).__name__ == "ConnectionTerminated"][0]
             t_act, idle_then = self.activity[name]
+            if self.processed_late[name] is not None and self.processed_late[name] > t_act:
+                # a packet that the endpoint could only process at a later delivery (its first copy arrived before
+                # the keys did) counts from the delivery at which it was acknowledged for the first time
+                t_act = self.processed_late[name]
             if ev.reason_phrase == "Idle timeout" and w.now > t_act + idle_then + 0.025 + ep.timer_late \
                     and not ep.was_late:
                 raise Violation(
